@@ -182,6 +182,25 @@ fn do_between(c: &Curve2, r: &Ref, l0: f64, l1: f64, st: &State, l: &mut Local) 
                 if l0 == l1 || r.cum.contains(&l0) || r.cum.contains(&l1) {
                     l.bucket("end exactly on a vertex");
                 }
+                // the constructor merges consecutive vertices within the tolerance: a piece longer than the
+                // tolerance that doubles back on itself within it (a sharp turn at the seam) still collapses
+                // to a single vertex, and the statement promises nothing for it
+                let survivors = |t: f64| {
+                    let e = r.expected(l0, l1);
+                    let mut last = e[0];
+                    let mut n = 1;
+                    for p in e.iter().skip(1) {
+                        if d2(p, &last) > t {
+                            n += 1;
+                            last = *p;
+                        }
+                    }
+                    n
+                };
+                if got.is_none() && survivors(tol + margin) < 2 {
+                    l.gray("piece collapses under the constructor's de-duplication");
+                    return None;
+                }
                 match got {
                     None => {
                         l.check("well-posed request yields a piece", "", false, mk, || {
